@@ -5,7 +5,7 @@
 set -u
 SID="$1"; shift
 DIR=/verif/seeded/$SID
-PROP="${SID%%-*}"
+PROP="$(echo "$SID" | sed "s/[a-z]*$//")"
 [ $# -eq 0 ] && set -- "$PROP"
 if [ -n "$(git -C /repo status --porcelain)" ]; then echo "/repo not clean"; exit 3; fi
 git -C /repo apply "$DIR/patch.diff" || { echo "patch does not apply"; exit 3; }
